@@ -241,6 +241,25 @@ let handle kind a =
             hex_of_bytes (subseq_iter packed l) ^ "/" ^ hex_of_bytes (subseq_iter packed r) ^ "/" ^
             shape l mid ^ "/" ^ shape r (n - mid)) mids in
       Some (short_or_digest (String.concat "," parts))
+  | "sqi" ->
+      (* wave 10: NV.Bam.SeqIter.seq_iter_run (Iter::new + size_hint + a schedule of next / next_back) *)
+      let sq = bytes_of_hex a.(0) in
+      let n = List.length sq in
+      let packed = pack_bases sq in
+      let mid = int_of_string a.(1) in
+      let sched_of s = List.filter_map (fun c -> match c with 'f' -> Some false | 'b' -> Some true | _ -> None)
+        (List.init (String.length s) (String.get s)) in
+      let show = function
+        | None -> "P"
+        | Some (h0, steps) ->
+            dec_of_n h0 ^ ";" ^ String.concat "." (List.map (fun (o, h) ->
+              (match o with None -> "-" | Some b -> dec_of_n b) ^ ":" ^ dec_of_n h) steps) in
+      let whole = show (seq_iter_run packed (n_of_int 0) (n_of_int n) (sched_of a.(2))) in
+      let halves = match split_at_checked (n_of_int n) (n_of_int mid) with
+        | None -> "None"
+        | Some ((s1, e1), (s2, e2)) ->
+            show (seq_iter_run packed s1 e1 (sched_of a.(3))) ^ "/" ^ show (seq_iter_run packed s2 e2 (sched_of a.(4))) in
+      Some (short_or_digest (whole ^ "|" ^ halves))
   | "tab" ->
       (match a.(0) with
        | "bases" ->
